@@ -528,8 +528,8 @@ func cmdCheck(args []string) {
 		}
 		if len(rs) > 0 && len(rs) <= 40 {
 			still := stage(rs, 4, 45*scale, "2")
-			max3 := 4
-			budget3 := 90
+			max3 := 3
+			budget3 := 60
 			if *tier == "thorough" {
 				max3, budget3 = 12, 180
 			}
@@ -768,6 +768,16 @@ func cmdCheck(args []string) {
 		}}
 	if be := boundedEvidence[*prop]; be != nil {
 		ev.Coverage["bounded"] = be
+	}
+	if *tier == "thorough" {
+		// consistency probe of the axiom base (prelude + spec definitions + axioms of uninterpreted functions + lemmas), all
+		// solvers incl. MBQI, 90 s: "unsat" would make every proof vacuous
+		pr, bad := probeWorld(res.w, 90)
+		ev.Coverage["consistency_probe"] = pr
+		if bad {
+			fmt.Println("ERROR the axiom base (prelude + specs + lemmas) is unsatisfiable: every proof would be vacuous")
+			exit = 2
+		}
 	}
 	os.MkdirAll(filepath.Join(*verif, "evidence"), 0o755)
 	data, _ := json.MarshalIndent(ev, "", " ")
